@@ -30,6 +30,8 @@ def configs(tier):
     grids = list(sl.GRIDS)
     for p, g, m in itertools.product(profs, grids, modes):
         yield {"prof": p, "grid": g[0], "dom": g[1], "modes": m}
+    for p_ in sl.AXIS_SETS:
+        yield {"prof": p_, "grid": sl.GRIDS[0][0], "dom": sl.GRIDS[0][1], "modes": "full"}
     odd = [((7, 5), (70.0, 75.0))] if tier == "quick" else [((7, 5), (70.0, 75.0)), ((5, 7), (75.0, 70.0)), ((7, 6), (70.0, 90.0))]
     for p, g in itertools.product(profs, odd):
         yield {"prof": p, "grid": g[0], "dom": g[1], "modes": [64, 64]}
